@@ -17,7 +17,7 @@ func init() {
 	register(&Property{
 		ID:      "C01",
 		NeedSSA: true,
-		Decided: "Narrow structural necessary conditions only: (tables) each entry of the encoding table, the compression codec table and the two level-encoding tables is the implementation whose identifying method/field equals its key, so the code stamped in a page header selects the same algorithm when read; (typepair) every Type implementation encodes with encoding.Encode<K>, decodes with encoding.Decode<K> and reports Kind() == K for one and the same K; (kinds) the dispatchers over the physical kind on the write and read side cover every kind or fail loudly; (wire) no call passes a struct field into the parameter named after a sibling field (e.g. repetition and definition level limits of a column buffer); (header) page header fields come from the matching accessors and sizes are measured at the right moment (C02.header); (sink) the destination writer is assigned and written only inside the offset-tracking wrapper, and every path of the writer's reset re-targets it through that wrapper, so a reused writer starts at offset 0; (fallback) the dictionary-to-PLAIN fallback never clears the dictionary that earlier pages refer to; (rows) values handed to WriteRowValues are aligned on rows (C11.rows). (lazybuffer) every store of a freshly made column buffer into a column writer is dominated by the nil edge of a test of that field. (chunkbase) a loop that walks a sparse array in chunks (Slice(i, j) with a loop-carried i) and indexes the whole array inside the loop uses an index that depends on i (8 sibling dictionary insert loops). (levelorder) wherever a function chooses exclusively between the repeated, optional and required form of a column (a test of a maxDefinitionLevel field on the not-repeated edge of a test of a maxRepetitionLevel field), the repetition test is not confined to the edge on which the definition level is zero — a repeated column always has a definition level, so such a test never selects the repeated form. (timeunit) in every function that asks for the duration of a time unit, no product with that duration reaches time.Unix or Time.Add: a stored count of milli- or microseconds is turned into a time.Time with the constructor of its unit, not through a count of nanoseconds that overflows beyond about 292 years.",
+		Decided: "Narrow structural necessary conditions only: (tables) each entry of the encoding table, the compression codec table and the two level-encoding tables is the implementation whose identifying method/field equals its key, so the code stamped in a page header selects the same algorithm when read; (typepair) every Type implementation encodes with encoding.Encode<K>, decodes with encoding.Decode<K> and reports Kind() == K for one and the same K; (kinds) the dispatchers over the physical kind on the write and read side cover every kind or fail loudly; (wire) no call passes a struct field into the parameter named after a sibling field (e.g. repetition and definition level limits of a column buffer); (header) page header fields come from the matching accessors and sizes are measured at the right moment (C02.header); (sink) the destination writer is assigned and written only inside the offset-tracking wrapper, and every path of the writer's reset re-targets it through that wrapper, so a reused writer starts at offset 0; (fallback) the dictionary-to-PLAIN fallback never clears the dictionary that earlier pages refer to; (rows) values handed to WriteRowValues are aligned on rows (C11.rows). (lazybuffer) every store of a freshly made column buffer into a column writer is dominated by the nil edge of a test of that field. (chunkbase) a loop that walks a sparse array in chunks (Slice(i, j) with a loop-carried i) and indexes the whole array inside the loop uses an index that depends on i (8 sibling dictionary insert loops). (levelorder) wherever a function chooses exclusively between the repeated, optional and required form of a column (a test of a maxDefinitionLevel field on the not-repeated edge of a test of a maxRepetitionLevel field), the repetition test is not confined to the edge on which the definition level is zero — a repeated column always has a definition level, so such a test never selects the repeated form. (timeunit) in every function that asks for the duration of a time unit, no product with that duration reaches time.Unix or Time.Add: a stored count of milli- or microseconds is turned into a time.Time with the constructor of its unit, not through a count of nanoseconds that overflows beyond about 292 years. (unitpair) for every logical type whose AssignValue compares the destination with time.Time or time.Duration (it reads the column into that Go type with a unit of its own), both write paths — makeValue and the functions writeRowsFuncOf dispatches to — look that logical type up (logicalTypeOf/logicalTypeIs instantiated with it).",
 		NotDecided: "equality of values, levels and nesting after a round trip; behaviour of encoders, compressors, page cutting arithmetic and row-group limits; null detection kernels (which rows of a batch are null) beyond their element width (C03.nullwidth).",
 		Assumptions: []string{"see DESIGN.md §4 C01: the property as a whole is outside static reach"},
 		Run:         runC01,
@@ -127,6 +127,7 @@ func runC01(c *Ctx) {
 	runChunkBaseRule(c, "C01.chunkbase", 6)
 	runLevelOrderRule(c, "C01.levelorder", 4)
 	c01TimeUnit(c)
+	c01UnitPair(c)
 	c01LazyBuffer(c)
 	p := c.P
 	runTableRule(c, "C01.tables", "encodings", "Encoding", 9)
